@@ -251,8 +251,15 @@ pub fn enumerate_c09(info: &ImgInfo, qi: usize, thorough: bool, rng: &mut Rng) -
     let mut v = vec![];
     let n = info.chunks.len();
     for (ci, (_s, name, len)) in info.chunks.iter().enumerate() {
-        let positions: Vec<usize> = if thorough {
+        let positions: Vec<usize> = if thorough && *len <= 8192 {
             (0..*len).collect()
+        } else if thorough {
+            // a file with a huge record: every byte of the first and last 2 KiB, 2000 sampled in between
+            let mut p: Vec<usize> = (0..2048).chain(*len - 2048..*len).collect();
+            p.extend((0..2000).map(|_| rng.below(*len as u64) as usize));
+            p.sort();
+            p.dedup();
+            p
         } else {
             let k = (48 / n.max(1)).max(8);
             let mut p: Vec<usize> = (0..k).map(|_| rng.below(*len as u64) as usize).collect();
@@ -301,10 +308,10 @@ pub fn enumerate_c10(info: &ImgInfo, qi: usize, thorough: bool, rng: &mut Rng) -
     let bounds = &info.layout.last().unwrap().0;
     for tr in [Some(true), Some(false)] {
         // every cut position (files are small)
-        let cuts: Vec<usize> = if thorough || len <= 400 {
+        let cuts: Vec<usize> = if (thorough && len <= 8192) || len <= 400 {
             (0..=len).collect()
         } else {
-            let mut c: Vec<usize> = (0..200).map(|_| rng.below(len as u64 + 1) as usize).collect();
+            let mut c: Vec<usize> = (0..if thorough { 2000 } else { 200 }).map(|_| rng.below(len as u64 + 1) as usize).collect();
             for b in bounds {
                 for d in [b.wrapping_sub(1), *b, b + 1] {
                     if d <= len {
